@@ -145,8 +145,14 @@ func purgeOutbox(
 		}
 
 		err = producer.Send(ctx, foreignID, eventType, headers)
+		// Always close the sender that was opened for this event, whether or not the send succeeded.
+		closeErr := producer.Close()
 		if err != nil {
 			return err
+		}
+
+		if closeErr != nil {
+			return closeErr
 		}
 
 		err = recordStore.DeleteOutboxEvent(ctx, e.ID)
